@@ -932,7 +932,6 @@ def index_usage_rules(F, rep, rule="C19.2"):
         return
     fields = a["variants"][0]["fields"]
     idx_fields = [(i, f) for i, f in enumerate(fields) if "BoomHashMap" in f["ty"]]
-    rep.floor("end-index fields of DebruijnGraph", 2, len(idx_fields))
     for i, f in idx_fields:
         key = "field/" + f["name"]
         if f["vis"] == "pub":
@@ -941,34 +940,39 @@ def index_usage_rules(F, rep, rule="C19.2"):
             rep.violated(rule, key, "index field %s has type %s — not the key-verifying BoomHashMap<K, u32>, so absent k-mers can alias a slot" % (f["name"], f["ty"]))
         else:
             rep.holds(rule, key, "index field %s is private and key-verifying (%s)" % (f["name"], f["ty"]))
-    # every use of the fields
-    idx_set = {i for i, _ in idx_fields}
-    uses = []
+    if len(idx_fields) < 2:
+        rep.inconclusive(rule, "index-fields", "DebruijnGraph no longer has two BoomHashMap end indices; the slot-layout argument is not applicable as written")
+    # every operation applied anywhere in the crate to a key-verifying BoomHashMap (the end indices are the only values of that type)
+    n_get = 0
+    ctor = 0
     for b in F.fns.values():
         if b.get("derived"):
             continue
-        d = C.Defs(b)
-        for bi, bb in enumerate(b["blocks"]):
+        for bb in b["blocks"]:
             if bb.get("cleanup"):
                 continue
             t = bb["t"]
-            if t.get("k") != "call":
+            if t.get("k") != "call" or "const" not in t["f"] or "fn" not in t["f"]["const"]:
                 continue
-            fr = t["f"].get("const", {}).get("fn") if "const" in t["f"] else None
-            for ai, arg in enumerate(t["args"]):
-                e = d.expr_operand(arg)
-                if C.expr_mentions(e, lambda x: isinstance(x, tuple) and len(x) == 3 and x[0] == "field" and x[2] in idx_set and _is_graph_field(F, b, x)):
-                    uses.append((b, t, fr))
-    n_get = 0
-    for b, t, fr in uses:
-        nm = (fr.get("path") if fr else "?")
-        if fr and "BoomHashMap" in nm and nm.endswith("::get"):
-            n_get += 1
-        else:
-            rep.violated(rule, "use/%s/%s" % (b["path"], nm.split("::")[-1]),
-                         "%s applies %s to an end index; only the key-verified `get` keeps answers independent of the slot layout" % (b["path"], nm),
-                         site=F.site(b, t.get("ln")))
-    rep.floor("key-verified look-ups on the end indices", 2, n_get)
+            fr = t["f"]["const"]["fn"]
+            nm = fr.get("path", "")
+            if not nm.startswith("boomphf::hashmap::BoomHashMap::<"):
+                continue
+            meth = nm.split("::")[-1]
+            if meth == "get":
+                n_get += 1
+            elif meth in ("new", "new_parallel", "new_serial", "new_with_mphf"):
+                ctor += 1
+            elif meth in ("len", "is_empty"):
+                pass
+            else:
+                rep.violated(rule, "use/%s/%s" % (b["path"], meth),
+                             "%s applies %s to an end index; only the key-verified `get` keeps answers independent of the MPHF's slot layout" % (b["path"], nm),
+                             site=F.site(b, t.get("ln")))
+    if n_get == 0:
+        rep.inconclusive(rule, "index-lookups", "no key-verified look-up on an end index was found")
+    else:
+        rep.holds(rule, "index-lookups", "the end indices are only built (%d constructor calls) and queried through the key-verified `get` (%d sites)" % (ctor, n_get))
 
 
 def _is_graph_field(F, body, e):
